@@ -341,6 +341,13 @@ class Forall:
         return cs, seeds, self.body(*cs)
 
 
+class Using:
+    """a proof goal together with explicitly instantiated (already proved) lemma instances"""
+
+    def __init__(self, lemmas, goal):
+        self.lemmas, self.goal = lemmas, goal
+
+
 def z3and(xs):
     xs = [x if is_z3(x) else z3.BoolVal(bool(x)) for x in xs]
     if not xs:
@@ -353,7 +360,7 @@ def named(items, prefix):
     out = []
     for i, it in enumerate(items):
         if isinstance(it, tuple) and len(it) == 2 and isinstance(it[0], str):
-            out.append((it[0], it[1] if (is_z3(it[1]) or isinstance(it[1], Forall)) else z3.BoolVal(bool(it[1]))))
+            out.append((it[0], it[1] if (is_z3(it[1]) or isinstance(it[1], (Forall, Using))) else z3.BoolVal(bool(it[1]))))
         else:
-            out.append(("%s%d" % (prefix, i), it if (is_z3(it) or isinstance(it, Forall)) else z3.BoolVal(bool(it))))
+            out.append(("%s%d" % (prefix, i), it if (is_z3(it) or isinstance(it, (Forall, Using))) else z3.BoolVal(bool(it))))
     return out
